@@ -47,18 +47,22 @@ func classify(multiline bool, pattern, in string, on, off result) string {
 			if ci {
 				cmp = strings.ToLower(in)
 			}
-			if beginsWithTextAnchor(re) && !strings.HasPrefix(cmp, lits[0]) && containsAll(cmp, lits) {
-				return "prefilter:first-literal-assumed-at-begin-anchor"
+			// Which of the mandatory literals the prefilter takes for "the first"
+			// ("the last") depends on which sub-results it drops on the way up
+			// (e.g. `(\Aaba{2})bc` ends up with "bc"), so any mandatory literal
+			// that is present but not at the anchored edge qualifies.
+			if beginsWithTextAnchor(re) && someNot(strings.HasPrefix, cmp, lits) && containsAll(cmp, lits) {
+				return "prefilter:literal-assumed-adjacent-to-text-anchor"
 			}
-			if endsWithTextAnchor(re) && !strings.HasSuffix(cmp, lits[len(lits)-1]) && containsAll(cmp, lits) {
-				return "prefilter:last-literal-assumed-at-end-anchor"
+			if endsWithTextAnchor(re) && someNot(strings.HasSuffix, cmp, lits) && containsAll(cmp, lits) {
+				return "prefilter:literal-assumed-adjacent-to-text-anchor"
 			}
 			// (?m)^ / (?m)$ taken for a text anchor
-			if edgeOp(re, syntax.OpBeginLine, false) && !strings.HasPrefix(cmp, lits[0]) && containsAll(cmp, lits) {
-				return "prefilter:begin-line-anchor-taken-for-text-anchor"
+			if edgeOp(re, syntax.OpBeginLine, false) && someNot(strings.HasPrefix, cmp, lits) && containsAll(cmp, lits) {
+				return "prefilter:line-anchor-taken-for-text-anchor"
 			}
-			if edgeOp(re, syntax.OpEndLine, true) && !strings.HasSuffix(cmp, lits[len(lits)-1]) && containsAll(cmp, lits) {
-				return "prefilter:end-line-anchor-taken-for-text-anchor"
+			if edgeOp(re, syntax.OpEndLine, true) && someNot(strings.HasSuffix, cmp, lits) && containsAll(cmp, lits) {
+				return "prefilter:line-anchor-taken-for-text-anchor"
 			}
 		}
 		if trieShape(re) {
@@ -72,6 +76,15 @@ func classify(multiline bool, pattern, in string, on, off result) string {
 		return "unclassified:false-positive:" + pattern
 	}
 	return "unclassified:" + pattern
+}
+
+func someNot(at func(s, l string) bool, s string, lits []string) bool {
+	for _, l := range lits {
+		if !at(s, l) {
+			return true
+		}
+	}
+	return false
 }
 
 func containsAll(s string, lits []string) bool {
